@@ -603,6 +603,8 @@ func c04Source(t c04Type) string {
 		w("func d_mapclone2_%d() any { m := maps.Clone(map[%s]%s{1: 1}); m[1] = %s; return m[1] }", ki, T, T, lit)
 		w("func d_slicesdelete_%d() any { s := slices.Delete([]%s{1, 1, 1}, 0, 1); s[0] = 1; s = append(s, %s); return s[2] }", ki, T, lit)
 		w("func d_sorted_%d() any { s := []%s{1, 1}; slices.Sort(s); s[0] = %s; return s[0] }", ki, T, lit)
+		w("func d_nilinit_%d() any { var s []%s = nil; s = append(s, %s); return s[0] }", ki, T, lit)
+		w("func d_nilinit2_%d() any { var a, b []%s = nil, nil; b = append(b, 1); a = append(a, %s); return a[0] }", ki, T, lit)
 		// an absent key reads as the zero value of the element type, whatever the key type is
 		for _, kt := range c04Types {
 			if kt.name == t.name {
@@ -902,7 +904,7 @@ func (w *c04Worker) decls() {
 	for ki, k := range c04Consts(t) {
 		k = c04ConstVal(k)
 		for _, n := range []string{"var", "conv", "param", "ret", "field", "fieldset", "elem", "elemset", "map", "mapset", "append", "assign", "global", "multi",
-			"resliceset", "resliceapp", "reslice2", "variadic", "variadic2", "mparam", "mvariadic", "ret2", "ret2b", "two", "funclit", "nested", "mapslice", "fieldslice", "fieldmap", "appendmany", "swap", "ifinit", "switch", "range", "mapkeys", "mapkeysset", "mapclone", "mapclone2", "slicesdelete", "sorted",
+			"resliceset", "resliceapp", "reslice2", "variadic", "variadic2", "mparam", "mvariadic", "ret2", "ret2b", "two", "funclit", "nested", "mapslice", "fieldslice", "fieldmap", "appendmany", "swap", "ifinit", "switch", "range", "mapkeys", "mapkeysset", "mapclone", "mapclone2", "slicesdelete", "sorted", "nilinit", "nilinit2",
 			"miss_int8", "miss_uint8", "miss_int32", "miss_uint32", "miss_float64", "missok_int8", "missok_uint8", "missok_int32", "missok_uint32", "missok_float64",
 			"missinc_int8", "missinc_uint8", "missinc_int32", "missinc_uint32", "missinc_float64"} {
 			if strings.HasPrefix(n, "miss") && strings.HasSuffix(n, "_"+t.name) {
@@ -1161,6 +1163,10 @@ func c04Sentinels(r *core.Run) {
 		{"F25", "var i int8 = -128; r := i &^ 0; r", "-128", "int8"},
 		{"F26", "const k = 200; var b byte = k; b += 100; b", "44", "uint8"},
 		{"F26", "const ( a = iota; b; c ); var x byte = 255; x += c; x", "1", "uint8"},
+		{"F56", "x := 5; r := x - 010; r", "-3", "int32"},
+		{"F56", "var q int = -010; q", "-8", "int32"},
+		{"F56", "var h int8 = -0x10; h", "-16", "int8"},
+		{"F56", "func f(a int) int { return a * -07 + -0x0 }; r := f(5); r", "-35", "int32"},
 	} {
 		m := core.NewMachine(core.VMOpts{Optimize: true})
 		o := m.Eval(nil, s.src)
